@@ -99,7 +99,7 @@ def run_case(case):
             c2["flags"] = ["again"] if case["second"] == "again" else []
             # a planted conflict file, and a command with a NUL byte (it is in the COND file),
             # are still there in the second invocation
-            c2["outcomes"] = {k: o for k, o in case.get("outcomes", {}).items() if "conflict" in o or o.get("launch") == "nul"}
+            c2["outcomes"] = {k: o for k, o in case.get("outcomes", {}).items() if "conflict" in o or o.get("launch") in ("nul", "blocked")}
             res2 = graph.run_cond(root, graph.argv_for(c2), kspec=graph.kernel_spec(c2, 2000.0))
             rows2 = projgen.read_rows(root)
             v2, lb2, nt2, brief2 = judge(c2, res2, cached2, case["second"] == "again", set(rows1), rows2)
